@@ -3,6 +3,7 @@
    correspondence runs under five hashers including an all-colliding one and lookups through a
    borrowed key type). *)
 Require Import LruV.A.OrderA.
+Require Import LruV.A.MonitorsSound LruV.A.MonitorsA.
 
 (* at most one entry per key, in every reachable state *)
 Theorem C04_nodup : forall E VS, 0 < E -> VS <= E -> forall s, Reach E VS s -> NoDup (kids (ents s)).
@@ -55,7 +56,12 @@ Example C04_example :
     /\ option_map vtag (lookup s' 1) = Some 33 /\ option_map vtag (lookup s' 2) = Some 22 /\ lookup s' 3 = None.
 Proof. cbv zeta. eexists _, _, _. split; [vm_compute; reflexivity|]. repeat split; reflexivity. Qed.
 
+(* the monitor evaluated on the implementation after every step (one entry per key) holds in every state of the model *)
+Theorem C04_monitor_sound : forall E s, Inv E s -> c04_nodup_mon s = true.
+Proof. exact c04_nodup_mon_sound. Qed.
+
 Print Assumptions C04_nodup.
 Print Assumptions C04_outputs.
 Print Assumptions C04_insert_returns_old.
 Print Assumptions C04_step.
+Print Assumptions C04_monitor_sound.
